@@ -23,15 +23,19 @@
 (*   repeat   a value written twice in its array                           *)
 (*   litObj   a string literal as "x" | as {"@value": "x"}                 *)
 (*   split    a node described by two objects with the same @id            *)
+(*   kw       how keywords are written: "plain" (@type, @id), "alias"      *)
+(*            (terms of the context that alias them: type, id -- only a    *)
+(*            document with a context can do that), "escaped" (the key     *)
+(*            text uses a JSON escape, "\u0040type": purely textual)       *)
 (* (white space and indentation are purely textual and not modelled)       *)
 (***************************************************************************)
 EXTENDS Naturals, Sequences, FiniteSets, TLC
 
 Choices == [ctx : {"none", "prefix", "vocab", "prefixRef"}, base : BOOLEAN, embed : BOOLEAN, wrapper : {"graph", "array"},
             order : BOOLEAN, keyOrder : BOOLEAN, arrays : BOOLEAN, typeArr : BOOLEAN, repeat : BOOLEAN,
-            litObj : BOOLEAN, split : BOOLEAN]
+            litObj : BOOLEAN, split : BOOLEAN, kw : {"plain", "alias", "escaped"}]
 Canonical == [ctx |-> "none", base |-> FALSE, embed |-> FALSE, wrapper |-> "array", order |-> FALSE, keyOrder |-> FALSE,
-              arrays |-> TRUE, typeArr |-> TRUE, repeat |-> FALSE, litObj |-> TRUE, split |-> FALSE]
+              arrays |-> TRUE, typeArr |-> TRUE, repeat |-> FALSE, litObj |-> TRUE, split |-> FALSE, kw |-> "plain"]
 
 \* G: [nodes, lits, edges, types, parent: [nodes -> nodes \cup {"none"}], embedPred: [nodes -> preds]]
 \*    (parent: an acyclic embedding forest; parent[m] = n requires the edge <<n, embedPred[m], m>>)
@@ -64,6 +68,7 @@ Obj(n, part, G, c) ==
                  IN IF Len(vr) = 1 /\ ~c.arrays THEN <<"single", vr[1]>> ELSE <<"array", vr>>
       ts == SetToSeq(G.types[n])
   IN [id |-> IdForm(n, c),
+      kwKey |-> IF c.kw = "alias" /\ c.ctx # "none" THEN "alias" ELSE "at",
       types |-> IF part = 2 THEN <<"absent">>
                 ELSE IF Len(ts) = 1 /\ ~c.typeArr THEN <<"single", KeyForm(ts[1], c)>>
                 ELSE <<"array", [i \in 1..Len(ts) |-> KeyForm(ts[i], c)]>>,
@@ -94,7 +99,8 @@ AllObjs(doc) == UNION {ObjsIn(doc.top[i]) : i \in 1..Len(doc.top)}
 Target(v, doc) == CASE v[1] \in {"lit", "valobj"} -> v[2]
                     [] v[1] = "ref" -> ExpandId(v[2], doc)
                     [] v[1] = "embedded" -> ExpandId(v[2].id, doc)
-TypesOfObj(o, doc) == CASE o.types[1] = "absent" -> {}
+\* an aliased keyword is only a keyword for a reader that has the context
+TypesOfObj(o, doc) == CASE o.types[1] = "absent" \/ (o.kwKey = "alias" /\ doc.ctx = "none") -> {}
                         [] o.types[1] = "single" -> {ExpandKey(o.types[2], doc)}
                         [] o.types[1] = "array" -> {ExpandKey(o.types[2][i], doc) : i \in 1..Len(o.types[2])}
 Denote(doc) ==
